@@ -65,6 +65,7 @@ def driver_legs(driver, tier, scale=1.0, with_bfs=True):
                                 extra=["--max-states", "400000", "--cfg", "shared=0,buf=array"], timeout=900))
         out.append(hist(f"{driver}-rand", driver, events=int(500_000 * scale), k=3, shards=8))
         out.append(hist(f"{driver}-rand-k5", driver, events=int(250_000 * scale), k=5, shards=4, seed_offset=77))
+        out.append(hist(f"{driver}-scen", driver, mode="scenario", events=50_000_000, k=5, shards=min(8, b["qn"])))
     else:
         if with_bfs:
             out.append(hist(f"{driver}-bfs", driver, mode="bfs", events=4_000_000_000, k=b["tk"], shards=min(16, b["tn"]),
@@ -76,6 +77,8 @@ def driver_legs(driver, tier, scale=1.0, with_bfs=True):
         out.append(hist(f"{driver}-rand-k4", driver, events=int(8_000_000 * scale), k=4, shards=4, seed_offset=55))
         out.append(hist(f"{driver}-rand-k6", driver, events=int(8_000_000 * scale), k=6, shards=4, seed_offset=77))
         out.append(hist(f"{driver}-dbg", driver, variant="dbg", events=int(3_000_000 * scale), k=4, shards=4, seed_offset=99))
+        out.append(hist(f"{driver}-scen", driver, mode="scenario", events=200_000_000, k=6, shards=min(16, b["tn"])))
+        out.append(hist(f"{driver}-scen-dbg", driver, mode="scenario", variant="dbg", events=200_000_000, k=6, shards=min(16, b["tn"])))
     return out
 
 
